@@ -174,7 +174,7 @@ def rewriter_proj(lexer, parser):
 
 def run(ctx):
     ctx.rule = ("histories from the session machine MC_C20: sequential call sequences (<= MaxCalls) over 3 instance "
-                "pairings x 31 probes, and token-granular interleavings of 2 calls on disjoint instances with a bounded "
+                "pairings x 34 probes, and token-granular interleavings of 2 calls on disjoint instances with a bounded "
                 "number of context switches; non-trivial = distinct history with >= 2 calls")
     ctx.trusted = ["thread hand-off harness (deterministic: exactly one runnable thread at any time)"]
     quick = ctx.tier == "quick"
